@@ -4,12 +4,11 @@
    Not proved (tied by the correspondence run only): Regexps.build_machine, i.e. that the NFA built
    from a rule accepts exactly the event language `ere_of rule` (the reference reading of the RE);
    that build_machine keeps every TransitionMap well formed (`nfa_ok` is evaluated on every
-   generated lexicon instead); termination of the worklist of nfa_to_dfa and of the recursive
-   epsilon closure for sufficient fuel (the theorems are about runs that return a machine;
-   out-of-fuel is the explicit result None). *)
+   generated lexicon instead).  Out-of-fuel of the worklist / the recursive epsilon closure is the
+   explicit result None; C50_nfa_to_dfa_terminates shows it cannot happen above 2^(number of states). *)
 From Coq Require Import ZArith NArith List Bool.
 From CyVerif Require Import Model.M_Plex Proof.P_Plex_TMap Proof.P_Plex_Sets Proof.P_Plex_DFA
-  Proof.P_Plex_Scan Proof.P_Plex_Deriv Proof.P_Plex.
+  Proof.P_Plex_Scan Proof.P_Plex_Deriv Proof.P_Plex Proof.P_Plex_Term.
 Import ListNotations.
 Open Scope Z_scope.
 
@@ -87,6 +86,16 @@ Theorem C50_subset_construction_correct : forall m,
      end.
 Proof. exact nfa_to_dfa_correct. Qed.
 Print Assumptions C50_subset_construction_correct.
+
+(* the worklist reaches closure and the epsilon-closure recursion ends: whenever every transition
+   target is a state of the machine, fuel above the number of subsets gives a machine *)
+Theorem C50_nfa_to_dfa_terminates : forall m,
+  (forall s, tm_inv (n_tm (n_get m s))) -> (forall s, tm_else_ok (n_tm (n_get m s)) = true) ->
+  (forall s, bounded m (n_eps (n_get m s))) -> (forall s e, bounded m (ntrans m s e)) ->
+  (0 < length m)%nat ->
+  forall fuel, (N.to_nat (2 ^ N.of_nat (length m)) < fuel)%nat -> exists D, nfa_to_dfa fuel m = Some D.
+Proof. exact nfa_to_dfa_total. Qed.
+Print Assumptions C50_nfa_to_dfa_terminates.
 
 (* ---- (3) the scanner loop ---- *)
 Theorem C50_scanner_longest_match : forall D text cfg,
